@@ -112,6 +112,22 @@ def obligations(tier):
         _, vs = c01.SCENARIOS[name] if name in c01.SCENARIOS else c01.EXTRA_SCENARIOS[name]
         o.append(Obl(f"counts[{name}]", _catalogue(name), vs(6) + OPT, bounds="as C01, optimize on/off (real multiple_inputs_optimize_dag)", **common))
 
+    # (b) events: the real async_map_dag / SingleThreadedExecutor loops on the scheduler stubs (harness shared with C07)
+    from harness import c07
+
+    ev = [("multi-output", 1, False, 2, False, 30, 50, 8, 3), ("diamond", 1, True, None, False, 30, 40, 10, 3), ("rechunk-then-add", 0, True, None, False, 30, 40, 12, 3),
+          ("chain-unequal", 0, False, 1, True, 30, 70, 10, 1)]
+    if tier != "quick":
+        ev += [("diamond", 0, True, None, False, 30, 40, 12, 1), ("independent", 0, True, 1, False, 30, 50, 12, 3), ("multi-output", 0, True, None, False, 30, 40, 12, 1)]
+    for dn, opt, par, bs, ub, n_o, n_d, n_p, mr in ev:
+        o.append(Obl(f"events[{dn},optimize={opt},parallel={int(par)},batch={bs},backups={int(ub)}]", c07.make(dn, opt, par, bs, ub, n_o, n_d, n_p, max_running=mr),
+                     c07.vars_(n_o, n_d, n_p), setup=c07.setup, wall_s=wall, functions=fns,
+                     bounds=f"real finalized plan '{dn}', every schedule with <= {mr} 'still running' observations; per operation exactly one start, num_tasks task-ends, one end, in order",
+                     stubs=["sched"], outside="real event loop / pools", witness_rule=lambda m: True))
+    for dn in ("diamond", "multi-output"):
+        o.append(Obl(f"events[single-threaded,{dn}]", (lambda dn: lambda **kw: c07.single_threaded(dn, 0, **kw))(dn), [(f"s{k}", 0, 1) for k in range(8)],
+                     setup=c07.setup, wall_s=wall, functions=fns, bounds="SingleThreadedExecutor.execute_dag on the real plan, every subset of operations marked computed"))
+
     def twin(**kw):
         _mk(SG.b_store_region, ["n", "c", "tn", "tc", "a"])(**kw)
         raise sx.Violated("reached-end")
